@@ -915,6 +915,13 @@ static int own_stack_range(uintptr_t sp, uintptr_t *lo, uintptr_t *hi) {
   return 0;    /* the process's initial stack (worker 0 / the simulator itself) */
 }
 
+/* size of the live thread stack that contains sp (0 if sp is on no library-managed stack) */
+size_t mvsim_ledger_stack_extent(const void *spp) {
+  uintptr_t sp = (uintptr_t)spp;
+  for (int i = 0; i < g_nlive; i++) if (sp >= g_live[i].lo && sp < g_live[i].hi) return (size_t)(g_live[i].hi - g_live[i].lo);
+  return 0;
+}
+
 void myth_verif_alloc(int kind, void *p, size_t size, int rank) {
   if (!g_active) return;
   if (rank != mvsim_lib_rank())
